@@ -6,7 +6,7 @@ use super::*;
 pub fn contracts() -> Vec<Contract> {
     vec![
         Contract { name: "c01_delegating_method_calls_own_fn", function: "fn_delegation_codegen.rs::FnDelegationCodegen::{gen_impl_block, gen_delegating_fn_item}, entrait_fn/mod.rs::{entrait_for_single_fn, entrait_for_mod}", props: &["C01", "C11"], run: c01_delegation },
-        Contract { name: "c04_impl_header_bounds", function: "analyze_generics.rs::{analyze_fn_deps, find_deps_generic_bounds}, fn_delegation_codegen.rs::gen_impl_block", props: &["C04", "C19"], run: c04_header },
+        Contract { name: "c04_impl_header_bounds", function: "analyze_generics.rs::{analyze_fn_deps, find_deps_generic_bounds}, fn_delegation_codegen.rs::gen_impl_block", props: &["C04", "C19", "C01", "C03"], run: c04_header },
         Contract { name: "c05_concrete_dependency", function: "analyze_generics.rs::{extract_deps_from_type, detect_trait_dependency_mode}, trait_codegen.rs::gen_trait_def", props: &["C05", "C15"], run: c05_concrete },
         Contract { name: "c13_trait_visibility", function: "entrait_fn/input_attr.rs::EntraitFnAttr::parse, trait_codegen.rs::TraitVisibility, entrait_fn/mod.rs::entrait_for_mod, entrait_trait/mod.rs::gen_impl_delegation_trait_defs", props: &["C13", "C08"], run: c13_visibility },
         Contract { name: "c18_attribute_placement", function: "entrait_fn/mod.rs, signature/converter.rs::convert_fn_to_trait_fn, sub_attributes.rs::analyze_sub_attributes, trait_codegen.rs::gen_trait_def, fn_delegation_codegen.rs::gen_impl_block", props: &["C18", "C12"], run: c18_attrs },
@@ -259,10 +259,10 @@ fn bound_strings(b: &syn::punctuated::Punctuated<syn::TypeParamBound, syn::token
 }
 
 fn c04_header(_ctx: &Ctx, r: &mut Report) {
-    r.domain = "14 ways of declaring 0..3 dependency bounds (inline, where, split, several predicates, impl A + B, by value) x {fn, mod of two fns with different declarations} x mock settings {none, mockall, unimock + mock_api}".into();
+    r.domain = "14 ways of declaring 0..3 dependency bounds (inline, where, split, several predicates, impl A + B, by value) x {fn, mod of two fns with different declarations} x option sets {none, mockall, unimock + mock_api, ?Send, ?Send + mockall}".into();
     r.bound = "exhaustive over the listed declarations and all ordered pairs for modules".into();
     let decls = bound_decls();
-    let mocks: [(&str, bool); 3] = [("", false), ("mockall", true), ("unimock, mock_api = TrMock", true)];
+    let mocks: [(&str, bool); 5] = [("", false), ("mockall", true), ("unimock, mock_api = TrMock", true), ("?Send", false), ("?Send, mockall", true)];
     let mut cases: Vec<(String, String, Vec<String>, bool, bool)> = vec![]; // (attr, item, bounds, by_value, mockable)
     for (mock, mockable) in mocks {
         let attr = if mock.is_empty() { "Tr".to_string() } else { format!("Tr, {}", mock) };
